@@ -189,3 +189,23 @@ Example bf_order_example :
   /\ bf_order_replayb [(1, [2; 3]); (4, [5; 9]); (2, [2])] [1; 2; 3; 4; 5] [3; 2; 1; 5] = false
   /\ bf_order_replayb [(1, [2; 3]); (4, [5; 9]); (2, [2])] [1; 2; 3; 4; 5] [1; 4; 2; 3; 5] = false.
 Proof. vm_compute. repeat split. Qed.
+
+(* What a successful replay says about the observed order by itself (besides being the model's output under the
+   choices it dictates): it lists every vertex exactly once -- the premise of the placer theorems. *)
+Lemma bf_replay_order_ok : forall nets vs observed,
+    bf_order_replayb nets vs observed = true ->
+    NoDup observed /\ (forall v, In v observed <-> In v vs)
+    /\ bf_order (pick_real observed) (arr_real observed) nets vs = observed.
+Proof.
+  intros nets vs observed H. unfold bf_order_replayb in H.
+  apply andb_true_iff in H; destruct H as [H H4]. apply andb_true_iff in H; destruct H as [H H3].
+  apply andb_true_iff in H; destruct H as [H1 H2].
+  split; [apply nodupb_NoDup; exact H1|]. split.
+  - intros v; split; intros Hv.
+    + rewrite forallb_forall in H2. apply zmem_In. apply H2; exact Hv.
+    + rewrite forallb_forall in H3. apply zmem_In. apply H3; exact Hv.
+  - revert H4. generalize (bf_order (pick_real observed) (arr_real observed) nets vs) as a.
+    intros a; revert observed H1 H2 H3; clear. intros observed _ _ _. revert observed.
+    induction a as [|x a IH]; intros [|y b] H; cbn [zlist_eqb] in H; try discriminate; [reflexivity|].
+    apply andb_true_iff in H; destruct H as [Hx Hr]. apply Z.eqb_eq in Hx. subst. f_equal. apply IH; exact Hr.
+Qed.
